@@ -62,9 +62,16 @@ Bad(e) ==
           \cup (IF e.stuck \/ \A p \in Targets(e) : \A q \in Prefixes(p) : KindIn(e.final, q) = "dir" THEN {} ELSE {"dirs"})
         ELSE (IF e.stuck \/ Explained(e) THEN {} ELSE {"linearizable"}))
 
+\* what was judged (vacuity guard)
+CN == [histories |-> 301, linearizability_checked |-> 302, c17_checked |-> 303, level_b_compared |-> 304, stuck |-> 305, with_whiteout_prefix |-> 306]
+Bump(i) == TLCSet(i, TLCGet(i) + 1)
+BumpIf(c, i) == IF c THEN Bump(i) ELSE TRUE
+Counters == [x \in DOMAIN CN |-> TLCGet(CN[x])]
 Next ==
   /\ l <= Len(Rec)
   /\ LET e == Rec[l]  bad == Bad(e) IN
+     /\ Bump(CN.histories) /\ BumpIf(e.prop # "C17" /\ ~e.stuck, CN.linearizability_checked) /\ BumpIf(e.prop = "C17", CN.c17_checked)
+     /\ BumpIf(ModelModelled(e) /\ ~e.stuck, CN.level_b_compared) /\ BumpIf(e.stuck, CN.stuck) /\ BumpIf(e.pre_remove # <<>>, CN.with_whiteout_prefix)
      /\ (IF ModelModelled(e) /\ ~e.stuck /\ SeqDrift(e) THEN Report("DRIFT", [l |-> l, model |-> "Conc", progs |-> e.progs]) ELSE TRUE)
      /\ (IF bad = {} THEN TRUE
          ELSE Report("VIOL", [l |-> l, seg |-> l, secondary |-> FALSE, conjs |-> bad,
@@ -73,9 +80,9 @@ Next ==
                                       threads |-> Len(e.progs), whiteout_prefix |-> e.pre_remove # <<>>,
                                       results |-> Flat(e.results)]]))
   /\ l' = l + 1
-Init == l = 1
+Init == l = 1 /\ \A x \in DOMAIN CN : TLCSet(CN[x], 0)
 TrSpec == Init /\ [][Next]_l
 Consumed ==
-  IF TLCGet("stats").diameter - 1 = Len(Rec) THEN Report("DONE", [events |-> Len(Rec)])
+  IF TLCGet("stats").diameter - 1 = Len(Rec) THEN Report("DONE", [events |-> Len(Rec), judged |-> Counters])
   ELSE Report("STUCK", [at |-> TLCGet("stats").diameter, of |-> Len(Rec)]) /\ FALSE
 =============================================================================
